@@ -82,12 +82,27 @@ func (h OperatorHooksWrapper) AfterOperatorKeyRemovalInitiated(
 	consAddr := key.ToConsAddr()
 	if chainID == avstypes.ChainIDWithoutRevision(ctx.ChainID()) {
 		_, found := h.keeper.GetExocoreValidator(ctx, consAddr)
+		if !found {
+			// maybe they changed the key earlier in this epoch. check the previous key.
+			hasOldKey, prevKey, _ := h.keeper.operatorKeeper.GetOperatorPrevConsKeyForChainID(
+				ctx, operator, chainID,
+			)
+			if hasOldKey {
+				_, found = h.keeper.GetExocoreValidator(ctx, prevKey.ToConsAddr())
+			}
+		}
 		if found {
 			h.keeper.SetOptOutInformation(ctx, operator)
 		} else {
-			h.keeper.operatorKeeper.DeleteOperatorAddressForChainIDAndConsAddr(
-				ctx, chainID, consAddr,
-			)
+			// the operator never validated with this key, so there is nothing to wait for: complete
+			// the removal right away. only deleting the reverse lookup would leave the removal
+			// marker and the other two key indexes behind forever, since no opt out is scheduled
+			// that could complete it, and the operator could never set a key on this chain again.
+			if err := h.keeper.operatorKeeper.CompleteOperatorKeyRemovalForChainID(
+				ctx, operator, chainID,
+			); err != nil {
+				h.keeper.Logger(ctx).Error("error completing operator key removal", "error", err)
+			}
 		}
 	}
 }
